@@ -229,7 +229,17 @@ class Resolver:
             outs.append((x, self.value(f, x['expr'], depth + 1)))
         if len(outs) == 1:
             return outs[0][1]
-        return [('alt', [(self._label(f, x), v) for x, v in outs])]
+        return [('alt', [(self._label(f, x), v, self._conds(f, x)) for x, v in outs])]
+
+    def _conds(self, f, x):
+        out = []
+        for s in f.switches():
+            if find_next(s['cond']) or (s['cond'][0] == 'discr' and s['cond'][1][0] == 'call' and s['cond'][1][3] == TRY_BRANCH):
+                continue
+            for lab, tgt in s['edges']:
+                if f.dominates(tgt, x['block']) and f.pred(tgt) == [s['block']]:
+                    out.append((s['cond'], lab))
+        return out
 
     def _label(self, f, x):
         doms = []
@@ -264,7 +274,7 @@ class Resolver:
                     de = f.expr_of_def(d)
                     if de == e:
                         continue
-                    alts.append((self._label(f, {'block': d[0], 'span': d[4]}), self.value(f, de, depth + 1)))
+                    alts.append((self._label(f, {'block': d[0], 'span': d[4]}), self.value(f, de, depth + 1), self._conds(f, {'block': d[0]})))
                 if len(alts) == 1:
                     return alts[0][1]
                 if alts:
@@ -297,7 +307,7 @@ class Resolver:
             for d in f.defs().get(l, []):
                 de = f.expr_of_def(d)
                 if de[0] == 'tuple' and int(e[2]) < len(de[1]):
-                    alts.append((self._label(f, {'block': d[0], 'span': d[4]}), self.value(f, de[1][int(e[2])], depth + 1)))
+                    alts.append((self._label(f, {'block': d[0], 'span': d[4]}), self.value(f, de[1][int(e[2])], depth + 1), self._conds(f, {'block': d[0]})))
             if alts and len(alts) == len(f.defs().get(l, [])):
                 return [('alt', alts)] if len(alts) > 1 else alts[0][1]
         if k == 'agg':
@@ -329,6 +339,7 @@ class Resolver:
         """template returned by closure c created in f with captured operands caps: upvars are rewritten to the
         creator's expressions so that provenance stays rooted at the entry function's parameters"""
         t = self.fn_template(c, depth)
+        t = self._subst(t, c.id, mode='carg')      # the closure's own parameters must not collide with the creator's
         return self._reresolve(f, self._subst(t, caps), depth)
 
     def _reresolve(self, f, nodes, depth):
@@ -349,7 +360,7 @@ class Resolver:
             elif k == 'opt':
                 out.append(('opt', n[1], self._reresolve(f, n[2], depth)) + tuple(n[3:]))
             elif k == 'alt':
-                out.append(('alt', [(l, self._reresolve(f, v, depth)) for l, v in n[1]]))
+                out.append(('alt', [(a[0], self._reresolve(f, a[1], depth)) + tuple(a[2:]) for a in n[1]]))
             elif k == 'rep':
                 out.append(('rep', n[1], n[2], self._reresolve(f, n[3], depth)) + tuple(n[4:]))
             else:
@@ -367,7 +378,25 @@ class Resolver:
                 return caps[e[1]]
             if mode == 'arg' and e[0] == 'arg' and 1 <= e[1] <= len(caps):
                 return caps[e[1] - 1]
+            if mode == 'carg' and e[0] == 'arg':
+                return ('carg', e[1], e[2], caps)
             return tuple(sx(x) if isinstance(x, tuple) else ([(y[0], sx(y[1])) if (isinstance(y, tuple) and len(y) == 2 and isinstance(y[0], str) and isinstance(y[1], tuple)) else (sx(y) if isinstance(y, tuple) else y) for y in x] if isinstance(x, list) else x) for x in e)
+
+        def sinfo(info):
+            if not info:
+                return info
+            d = dict(info)
+            if d.get('elem') is not None:
+                d['elem'] = [sn(x) for x in d['elem']]
+            if d.get('extra'):
+                d['extra'] = [[sn(x) for x in ex] for ex in d['extra']]
+            if d.get('base') is not None:
+                d['base'] = sx(d['base'])
+            if d.get('chain'):
+                d['chain'] = [(nm, sx(a) if isinstance(a, tuple) else a) for nm, a in d['chain']]
+            if d.get('vec') is not None:
+                d['vec'] = sn(d['vec'])
+            return d
 
         def sn(n):
             k = n[0]
@@ -376,15 +405,15 @@ class Resolver:
             if k == 'group':
                 return ('group', n[1], [sn(x) for x in n[2]])
             if k == 'rep':
-                return ('rep', [sx(s) for s in n[1]], n[2], [sn(x) for x in n[3]]) + tuple(n[4:])
+                return ('rep', [sx(s) for s in n[1]], n[2], [sn(x) for x in n[3]]) + ((([sinfo(i) for i in n[4]] if n[4] else n[4]),) if len(n) > 4 else ())
             if k == 'opt':
                 return ('opt', sx(n[1]), [sn(x) for x in n[2]], sx(n[3]) if len(n) > 3 and n[3] is not None else None)
             if k == 'alt':
-                return ('alt', [(l, [sn(x) for x in v]) for l, v in n[1]])
+                return ('alt', [(a[0], [sn(x) for x in a[1]], [(sx(c_), l_) for c_, l_ in (a[2] if len(a) > 2 else [])]) for a in n[1]])
             if k == 'call':
-                return ('call', n[1], [sx(a) for a in n[2]], n[3])
+                return ('call', n[1], [sx(a) for a in n[2]], [sn(x) for x in n[3]])
             if k == 'elem':
-                return n
+                return n[:3] + ((sinfo(n[3]),) if len(n) > 3 else ())
             if k == 'vec':
                 return ('vec', [(sx(c_), [sn(x) for x in v]) for c_, v in n[1]])
             return n
@@ -398,8 +427,10 @@ class Resolver:
             if a0 == ('var', l, f.names.get(l, '_%d' % l)):
                 conds = []
                 for s in f.switches():
+                    if s['cond'][0] == 'int' or find_next(s['cond']) or (s['cond'][0] == 'discr' and s['cond'][1][0] == 'call' and s['cond'][1][3] == TRY_BRANCH):
+                        continue
                     for lab, tgt in s['edges']:
-                        if f.dominates(tgt, c['block']) and f.pred(tgt) == [s['block']] and not f.dominates(tgt, _first_use_after(f, l, c['block'])):
+                        if f.dominates(tgt, c['block']) and f.pred(tgt) == [s['block']]:
                             conds.append((s['cond'], lab))
                 items.append((conds[-1] if conds else None, self.value(f, f.expr_of_operand(c['term']['args'][1]), depth + 1), c['block']))
         items.sort(key=lambda x: x[2])
@@ -445,7 +476,7 @@ class Resolver:
         """describe a repetition source: base collection expression, adapter chain, element template (if the
         elements are token streams produced by a closure) or None for leaf elements"""
         e = self._peel(s)
-        e = expand(f, e, keep=lambda ty: ty == TS)
+        e = expand(f, e, keep=lambda ty: TS in ty)
         chain = []
         elem = None
         extra = []
@@ -469,7 +500,7 @@ class Resolver:
                 exs = [x for x in c.exits() if x['kind'] not in ('err_own', 'err_prop', 'none_prop')]
                 if len(exs) == 1:
                     chain.append(('opt-map', cur[2][0]))
-                    inner = self._subst([('hole', expand(c, exs[0]['expr'], keep=lambda ty: ty == TS), '')], cur[2][1][2])[0][1]
+                    inner = self._subst([('hole', expand(c, exs[0]['expr'], keep=lambda ty: TS in ty), '')], cur[2][1][2])[0][1]
                     cur = inner
                     f = c
                     continue
@@ -556,9 +587,13 @@ class Flat:
                 self.opts.append((i, n[1], ctx))
                 out.append('OPT%d[ %s ]' % (i, self.flat(n[2], ctx + '/opt%d' % i)))
             elif k == 'alt':
+                arms = prune_alt(n[1])
+                if len(arms) == 1:
+                    out.append(self.flat(arms[0][1], ctx))
+                    continue
                 i = len(self.alts)
-                self.alts.append((i, [l for l, _ in n[1]], ctx))
-                out.append('ALT%d{ %s }' % (i, ' || '.join(self.flat(v, ctx + '/alt%d.%d' % (i, j)) for j, (l, v) in enumerate(n[1]))))
+                self.alts.append((i, [a[0] for a in arms], ctx))
+                out.append('ALT%d{ %s }' % (i, ' || '.join(self.flat(a[1], ctx + '/alt%d.%d' % (i, j)) for j, a in enumerate(arms))))
             elif k == 'call':
                 out.append(self.flat(n[3], ctx + '/' + short(n[1])))
             elif k == 'vec':
@@ -569,6 +604,24 @@ class Flat:
             elif k == 'seq':
                 out.append(self.flat(n[1], ctx))
         return ' '.join(x for x in out if x != '')
+
+
+def prune_alt(arms):
+    """drop alternatives whose branch condition became a constant that contradicts the edge (constant propagation of
+    literal arguments such as doc_to_tokens(false, ..))"""
+    keep = []
+    for a in arms:
+        conds = a[2] if len(a) > 2 else []
+        dead = False
+        for c, lab in conds:
+            c = strip(c)
+            if c[0] == 'int' and c[2] == 'bool' and lab in (True, False) and bool(c[1]) != lab:
+                dead = True
+            if c[0] == 'un' and c[1] == 'Not' and strip(c[2])[0] == 'int' and lab in (True, False) and (not bool(strip(c[2])[1])) != lab:
+                dead = True
+        if not dead:
+            keep.append(a)
+    return keep or list(arms)
 
 
 def template_of(prog, fn_suffix, R=None):
